@@ -75,6 +75,13 @@ type mrun struct {
 	events []mevent
 	gets   []obs
 	probes []probe
+	// scans inside programs (scan_test.go)
+	scans          []scanObs       // expected results of the Iterate/Range calls
+	base           mstate          // state persisted before the block (nil: nothing persisted / not tracked); labels only
+	inv            mstate          // state at the start of the running program; labels only
+	cmdFail        bool            // the running program is a command that is going to fail; labels only
+	sc             scanCounters    // classification of the scans run on this model (labels only)
+	scannedDeleted map[string]bool // persisted keys that lay, staged for deletion, in the interval of a scan run by a hook or a succeeding command
 }
 
 // runOps applies a program to r.st, appending events / expected observations. Returns stats.
@@ -89,8 +96,10 @@ func (r *mrun) runOps(ops []Op, mod, where string) opStats {
 			stale[st] = true
 		}
 	}
+	r.inv = r.st.clone()
+	restored := false
 	for _, op := range ops {
-		if op.H == 1 && (op.K == "set" || op.K == "del" || op.K == "get" || op.K == "has") {
+		if op.H == 1 && isStoreOp(op.K) {
 			if stale[op.S] {
 				s.retainedAfterRestore++
 			}
@@ -117,6 +126,8 @@ func (r *mrun) runOps(ops []Op, mod, where string) opStats {
 		case "has":
 			_, ok := r.st[fullKey(op.S, op.Key)]
 			r.gets = append(r.gets, obs{Where: where, Op: "has", S: op.S, Key: op.Key, Exist: ok})
+		case "iter", "range":
+			r.scanOp(op, where, restored)
 		case "ev":
 			s.rev++
 			r.events = append(r.events, mevent{Module: mod, Name: evName(true, op.Tag), Data: fmt.Sprintf("%02x", op.Tag), rev: true})
@@ -129,6 +140,7 @@ func (r *mrun) runOps(ops []Op, mod, where string) opStats {
 			r.st = stack[op.N]
 			stack = stack[:op.N]
 			s.restores++
+			restored = true
 			markStale()
 		case "ssnap":
 			retainedSeen[op.S] = true
@@ -137,6 +149,7 @@ func (r *mrun) runOps(ops []Op, mod, where string) opStats {
 			r.st = sstack[op.S][op.N]
 			sstack[op.S] = sstack[op.S][:op.N]
 			s.storeRestores++
+			restored = true
 			markStale()
 			retainedSeen[op.S] = true
 		}
@@ -164,7 +177,9 @@ func (r *mrun) runTx(module int, ts *TxScript) txOutcome {
 	}
 	before := r.st.clone()
 	nPre := len(r.events)
+	r.cmdFail = ts.Fail
 	stats := r.runOps(ts.Cmd, modNames[module], "cmd/"+modNames[module])
+	r.cmdFail = false
 	var kept []mevent
 	if ts.Fail {
 		r.st = before
